@@ -16,7 +16,8 @@
 (* The printed record lists the ADMISSIBLE outputs (ties are sets).        *)
 (***************************************************************************)
 EXTENDS Forests, Json
-CONSTANTS N, OutliersOn, MaxChains, MaxEntries, MaxMult, Dump
+CONSTANTS N, OutliersOn, MaxChains, MaxEntries, MaxMult, Dump,
+          FixedTraces     \* {} : every trace within the bounds above; otherwise exactly these traces (long traces given by the harness)
 Data == 0..(N - 1)
 U == AllOn(Data, OutliersOn)
 Entries == [t : U, m : 1..MaxMult]
@@ -27,7 +28,7 @@ Traces == UNION {{[c \in 1..k |-> [num |-> p[c], entries |-> b[c]]] : b \in [1..
 VARIABLES tr, ci, ei, best, topo, done
 vars == <<tr, ci, ei, best, topo, done>>
 NoBest == [val |-> 0, chain |-> 0, idx |-> 0]
-Init == tr \in Traces /\ ci = 1 /\ ei = 1 /\ best = NoBest /\ topo = << >> /\ done = FALSE
+Init == tr \in (IF FixedTraces = {} THEN Traces ELSE FixedTraces) /\ ci = 1 /\ ei = 1 /\ best = NoBest /\ topo = << >> /\ done = FALSE
 Cur == tr[ci].entries[ei]
 Scan == /\ ~done
         /\ LET e == Cur  num == tr[ci].num IN
@@ -45,7 +46,7 @@ Scan == /\ ~done
 Next == Scan \/ (done /\ UNCHANGED vars)
 
 \* ---------------------------------------------------------------- definitions
-AllEntries == {<<c, j>> : c \in 1..Len(tr), j \in 1..MaxEntries} \cap {<<c, j>> \in (1..Len(tr)) \X (1..MaxEntries) : j <= Len(tr[c].entries)}
+AllEntries == UNION {{<<c, j>> : j \in 1..Len(tr[c].entries)} : c \in 1..Len(tr)}
 EntryAt(p) == tr[p[1]].entries[p[2]]
 MaxScore == Max({EntryAt(p).m : p \in AllEntries})
 ChainByNum(n) == CHOOSE c \in 1..Len(tr) : tr[c].num = n
